@@ -328,7 +328,8 @@ class ValueGen:
         if t[0] == "m":
             n = self.count() if depth < self.budget else 0
             keys, out = set(), []
-            if self.nan_keys and t[1] in ("float32", "float64"):
+            # one NaN key per float-keyed map at most (an entry a Go map keeps but cannot look up): always where asked for, now and then otherwise
+            if t[1] in ("float32", "float64") and (self.nan_keys or (self.style == "rand" and n > 0 and r.below(4) == 0)):
                 nan = zt((FLOAT32_SPECIAL if t[1] == "float32" else FLOAT64_SPECIAL)[r.choice([0, 3, 4])])
                 keys.add(nan)
                 out += [nan] + self.value(t[2], depth + 1)
